@@ -260,13 +260,18 @@ static long verif_strtol(const char *s, char **end, int base)
 static FILE *verif_fopen(const char *name, const char *mode)
 {
   (void)name; (void)mode;
-  if (nondet_bool()) return 0;
+  if (nondet_bool()) { g_file_failures++; return 0; }
   g_pos = 0; g_eof_seen = 0; g_rd_err = 0; g_read_error_happened = 0;
   fmon_phase = 0 /* FPH_START */; fmon_lines = g_lines_listed;
   mon_indent_run = 0;
   return &verif_file_obj;
 }
-static int verif_fclose(FILE *f) { __CPROVER_assert(f != 0, "C08: fclose on a NULL stream"); return nondet_bool() ? EOF : 0; }
+static int verif_fclose(FILE *f)
+{
+  __CPROVER_assert(f != 0, "C08: fclose on a NULL stream");
+  if (nondet_bool()) { g_file_failures++; return EOF; }
+  return 0;
+}
 static int verif_fflush(FILE *f)
 {
   if (f == stdout) { if (verif_out_fail()) return EOF; return 0; }
